@@ -248,6 +248,8 @@ func parse(ctx context.Context, tree *parser.Thrift, mode meta.ParseServiceMode,
 	}
 
 	structsCache := compilingCache{}
+	inheritedCaches := map[*parser.Thrift]compilingCache{}
+	seenFuncs := map[*parser.Function]bool{}
 
 	// support one service
 	svcs := tree.Services
@@ -294,8 +296,22 @@ func parse(ctx context.Context, tree *parser.Thrift, mode meta.ParseServiceMode,
 			funcs = findFuncs(funcs, methods)
 		}
 		for _, p := range funcs {
+			// a base service may be reached twice (CombineServices lists it on its own and through `extends`)
+			if seenFuncs[p.fn] {
+				continue
+			}
+			seenFuncs[p.fn] = true
 			injectAnnotations((*[]*parser.Annotation)(&p.fn.Annotations), next)
-			if err := addFunction(ctx, p.fn, p.tree, sDsc, structsCache, sopts); err != nil {
+			// type names are only unique inside one file: inherited functions of another file need their own cache
+			cache := structsCache
+			if p.tree != tree {
+				cache = inheritedCaches[p.tree]
+				if cache == nil {
+					cache = compilingCache{}
+					inheritedCaches[p.tree] = cache
+				}
+			}
+			if err := addFunction(ctx, p.fn, p.tree, sDsc, cache, sopts); err != nil {
 				return nil, err
 			}
 		}
@@ -356,6 +372,9 @@ func getAllFuncs(svc *parser.Service, tree *parser.Thrift, ret *[]funcTreePair) 
 			if sub != nil {
 				getAllFuncs(sub, subTree, &funcs)
 			}
+		} else if sub, _ := tree.GetService(svc.Extends); sub != nil && sub != svc {
+			// the base service is defined in the same file (thriftgo sets no Reference then)
+			getAllFuncs(sub, tree, &funcs)
 		}
 	}
 	*ret = funcs
